@@ -9,13 +9,18 @@ NOTE = ("Trusted: Coq 8.16.1 kernel + vm_compute; extraction (ExtrOcamlBasic onl
         "Qt 5.15.8 semantics as modelled. No axioms: every theorem prints 'Closed under the global context'.")
 
 CHECKS = {
- "C04": ("Theorems (Properties_C04.v, partial): the single hop of the convergence argument on the tied component models - the provider's "
-         "announcement is the response [PTR; SRV; TXT] of its published records, and a browser of that type holding exactly those "
-         "records reports the instance as added with the provider's type, name, SRV target, port and attributes. The end-to-end "
-         "statement itself is decided per run: simulated networks of 1..4 real provider stacks and 1..3 real browsers exchange packets "
-         "through the real toPacket/fromPacket with per-link delays, loop-back and duplication; after draining (and after the record "
-         "TTL following a silent disconnection) every browser's view must equal the services offered by the live providers of its type.",
-         "DESIGN.md section 4 (C04)", "Rocq proof of the single hop (announcement -> report) + simulated networks of the real stacks judged against the script's ground truth"),
+ "C04": ("Theorems (Properties_C04.v, partial): the hops of the convergence argument on the tied component models - (1) for EVERY history of a "
+         "provider, a remote Cache (the library's addRecord) hearing all its multicast responses in order, without loss or expiry, holds "
+         "exactly the provider's current PTR/SRV/TXT while it is confirmed and nothing otherwise "
+         "(C04_remote_cache_holds_the_served_records_partial = C13 listener invariant composed with the cache's replacement rule); "
+         "(2) the announcement is the response [PTR; SRV; TXT] of the published records; (3) a browser of that type holding exactly those "
+         "records reports the instance as added with the provider's type, name, SRV target, port and attributes; C01/C02 give the codec "
+         "hop. The induction over network schedules (several nodes, delays, duplication) is not mechanised; the end-to-end statement is "
+         "decided per run: simulated networks of 1..4 real provider stacks and 1..3 real browsers exchange packets through the real "
+         "toPacket/fromPacket with per-link delays, loop-back and duplication (incl. sequential histories in which every provider "
+         "vanishes and expires before the next starts); after draining every browser's view must equal the services offered by the "
+         "live providers of its type.",
+         "DESIGN.md section 4 (C04)", "Rocq proofs of the hops (provider history -> remote cache content; announcement -> report; codec round trip) + simulated networks of the real stacks judged against the script's ground truth"),
  "C09": ("Theorem C09_hostname_defence_round (Properties_C09.v): for every interface table and local source, a registered hostname object "
          "answers a newcomer's A+AAAA probe for its name and that reply moves the unregistered newcomer to a later candidate; "
          "C09_service_names_refuted: the service-name half is false of the faithful model (a confirmed provider is silent on the "
